@@ -530,4 +530,130 @@ theorem fpLoopA_frame (lf : Option Rat) (sl : List SigLine) (a a' : FPA) (h : fp
         · rw [i4 (fun x hx => hc x (List.mem_cons_of_mem _ hx)), hst, f4 (hc e List.mem_cons_self)]
         · rw [i5 (fun x hx => hc x (List.mem_cons_of_mem _ hx)), hst, f5 (hc e List.mem_cons_self)]
 
+/-! ### the dump-file loader through the lines that have terms -/
+
+theorem rowsOfN_single_empty (l : RawLine) (h : (termsN l).isEmpty = true) : rowsOf false [l] = [] := by
+  simp [rowsOf, termsOf, h]
+
+theorem rowsOfN_single (l : RawLine) (h : (termsN l).isEmpty = false) : rowsOf false [l] = [termsN l] := by
+  simp [rowsOf, termsOf, h]
+
+def dsStepA (lf : Option Rat) (t : Line) (a : DSC × Option (List Line)) : Res (DSC × Option (List Line)) := do
+  let r ← dsCore lf t a.1
+  pure (r.1, if r.2 then some [] else a.2.map (· ++ [t]))
+
+def dsLoopA (lf : Option Rat) : List Line → DSC × Option (List Line) → Res (DSC × Option (List Line))
+  | [], a => pure a
+  | t :: ts, a => do let a' ← dsStepA lf t a; dsLoopA lf ts a'
+
+def offRelN (done : List RawLine) (off : Option Nat) (rows : Option (List Line)) : Prop :=
+  match off with
+  | none => rows = none
+  | some k => k ≤ done.length ∧ rows = some (rowsOf false (done.drop k))
+
+theorem dsCore_empty (lf : Option Rat) (t : Line) (s : DSC) (h : t.isEmpty = true) : dsCore lf t s = .ok (s, false) := by
+  unfold dsCore; simp [h]; rfl
+
+theorem rowsOf_cons_N (l : RawLine) (ls : List RawLine) :
+    rowsOf false (l :: ls) = if (termsN l).isEmpty then rowsOf false ls else termsN l :: rowsOf false ls := by
+  unfold rowsOf
+  simp only [List.map_cons, List.filter_cons, termsOf]
+  cases h : (termsN l).isEmpty <;> simp [h]
+
+theorem simN (lf : Option Rat) : ∀ (ls done : List RawLine) (s : DS) (rows : Option (List Line)),
+    offRelN done s.atomsStart rows →
+    (∀ s', dsLoop lf done.length ls s = .ok s' →
+      ∃ rows', dsLoopA lf (rowsOf false ls) (s.c, rows) = .ok (s'.c, rows') ∧ offRelN (done ++ ls) s'.atomsStart rows') ∧
+    (∀ e, dsLoop lf done.length ls s = .error e → dsLoopA lf (rowsOf false ls) (s.c, rows) = .error e) := by
+  intro ls
+  induction ls with
+  | nil =>
+    intro done s rows hr
+    constructor
+    · intro s' h
+      simp only [dsLoop, pure, Except.pure] at h
+      injection h with h; subst h
+      exact ⟨rows, rfl, by simpa using hr⟩
+    · intro e h; simp [dsLoop, pure, Except.pure] at h
+  | cons l ls ih =>
+    intro done s rows hr
+    have hlen : (done ++ [l]).length = done.length + 1 := by simp
+    have happ : done ++ l :: ls = (done ++ [l]) ++ ls := by simp
+    rw [rowsOf_cons_N]
+    unfold dsLoop dsStep dsStepT
+    by_cases he : (termsN l).isEmpty = true
+    · simp only [he, if_true, dsCore_empty lf _ s.c he, bind, Except.bind, pure, Except.pure, Bool.false_eq_true, if_false]
+      have hr' : offRelN (done ++ [l]) s.atomsStart rows := by
+        cases hs : s.atomsStart with
+        | none => rw [hs] at hr; exact hr
+        | some k =>
+          rw [hs] at hr
+          obtain ⟨h1, h2⟩ := hr
+          refine ⟨by simp; omega, ?_⟩
+          rw [List.drop_append_of_le_length h1, rowsOf_append, rowsOfN_single_empty l he, List.append_nil]
+          exact h2
+      have := ih (done ++ [l]) ⟨s.c, s.atomsStart⟩ rows hr'
+      rw [hlen] at this
+      rw [happ]
+      exact this
+    · have he' : (termsN l).isEmpty = false := by simpa using he
+      simp only [he', Bool.false_eq_true, if_false]
+      unfold dsLoopA dsStepA
+      cases hc : dsCore lf (termsN l) s.c with
+      | error e =>
+        simp only [bind, Except.bind]
+        exact ⟨fun s' h => (by cases h), fun e' h => (by injection h with h; rw [h])⟩
+      | ok r =>
+        simp only [bind, Except.bind, pure, Except.pure]
+        have hr' : offRelN (done ++ [l]) (if r.2 = true then some (done.length + 1) else s.atomsStart)
+            (if r.2 = true then some [] else rows.map (· ++ [termsN l])) := by
+          by_cases h2 : r.2 = true
+          · simp only [h2, if_true]
+            refine ⟨by simp, ?_⟩
+            have : (done ++ [l]).drop (done.length + 1) = [] := by apply List.drop_eq_nil_of_le; simp
+            rw [this]; rfl
+          · simp only [h2, if_false]
+            cases hs : s.atomsStart with
+            | none => rw [hs] at hr; simp [offRelN] at hr ⊢; exact hr
+            | some k =>
+              rw [hs] at hr
+              obtain ⟨h1, h3⟩ := hr
+              refine ⟨by simp; omega, ?_⟩
+              rw [List.drop_append_of_le_length h1, rowsOf_append, rowsOfN_single l he', h3]
+              rfl
+        have := ih (done ++ [l]) ⟨r.1, if r.2 = true then some (done.length + 1) else s.atomsStart⟩ _ hr'
+        rw [hlen] at this
+        rw [happ]
+        exact this
+
+/-- the dump-file loader as a function of the lines that have terms. -/
+def loadDumpRows (rows : List Line) (symbols : Option (List (Option String))) (given : Option (List PCol))
+    (u : Units) : Res Loaded := do
+  let lf ← lengthFactor u
+  let a ← dsLoopA lf rows ({}, none)
+  loadDumpCore a.1 a.2 symbols given u
+
+theorem loadDumpLines_eq_rows (lines : List RawLine) (symbols : Option (List (Option String)))
+    (given : Option (List PCol)) (u : Units) :
+    loadDumpLines lines symbols given u = loadDumpRows (rowsOf false lines) symbols given u := by
+  unfold loadDumpLines loadDumpRows
+  cases hlf : lengthFactor u with
+  | error e => rfl
+  | ok lf =>
+    simp only [bind, Except.bind]
+    obtain ⟨hok, herr⟩ := simN lf lines [] {} none rfl
+    simp only [List.length_nil, List.nil_append] at hok herr
+    cases hs : dsLoop lf 0 lines {} with
+    | error e =>
+      have := herr e hs
+      rw [this]
+    | ok s =>
+      obtain ⟨rows', h1, h2⟩ := hok s hs
+      rw [h1]
+      simp only []
+      congr 1
+      cases hk : s.atomsStart with
+      | none => rw [hk] at h2; simp only [offRelN] at h2; rw [h2]; rfl
+      | some k => rw [hk] at h2; obtain ⟨_, h2⟩ := h2; rw [h2]; rfl
+
 end Atomman.C08
